@@ -223,7 +223,7 @@ theorem tiltstack_class_documented :
       "else:",
       "  return v0"] := ⟨rfl, rfl, rfl⟩
 
-/-- `ioutils.indices_load` (csv: positions of the `True` cells, always 0-based; text file: `np.loadtxt`; list/array:
+/-- `ioutils.indices_load` (csv: positions of the `True` cells, always 0-based; text file: `np.atleast_1d(np.loadtxt(...))`, so one entry is a one-element array; list/array:
 `np.asarray`, refused when empty) and `ioutils.tlt_load` (arrays and lists pass through, files are sorted only on request) -/
 theorem loaders_documented :
     Gen.C15.indicesLoadBody = 
@@ -235,7 +235,7 @@ theorem loaders_documented :
       "    v1 = v0['ToBeRemoved'].to_numpy().nonzero()[0]",
       "    numbered_from_1 = False",
       "  else:",
-      "    v1 = np.loadtxt(input_data, dtype=int)",
+      "    v1 = np.atleast_1d(np.loadtxt(input_data, dtype=int))",
       "else:",
       "  if isinstance(input_data, list) or isinstance(input_data, np.ndarray):",
       "    v1 = np.asarray(input_data)",
@@ -674,25 +674,26 @@ theorem sort_length_mismatch (le : κ → κ → Bool) (angles : List κ) (imgs 
     rw [filterMap_get_length imgs _ (by simpa using hall), argsort_length]
 
 /-- **Index sources.** A list/array goes through `remove_spec` as is; a csv file forces 0-based numbering whatever the
-caller passes and is not refused when nothing is flagged (nothing is removed); a text file with two or more entries behaves
-like the list; a text file with exactly ONE entry makes the bounds check raise `TypeError` (`np.loadtxt` returns a 0-d
-array) — recorded as known finding C15-K1 by the harness. -/
+caller passes and is not refused when nothing is flagged (nothing is removed); a text file with one or more entries behaves
+like the list (a single entry included: `indices_load` makes the loaded array 1-D, repository fix 068f224 of the former
+finding C15-K1), an empty one removes nothing. -/
 theorem remove_sources (base1 : Bool) (idxs : List Int) (imgs : List ι) :
     removeTiltsSrc .list base1 idxs imgs = removeTilts base1 idxs imgs
     ∧ (idxs ≠ [] → removeTiltsSrc .csv base1 idxs imgs = removeTilts false idxs imgs)
     ∧ removeTiltsSrc .csv base1 [] imgs = .ok imgs
-    ∧ (2 ≤ idxs.length → removeTiltsSrc .txt base1 idxs imgs = removeTilts base1 idxs imgs)
-    ∧ (idxs.length = 1 → removeTiltsSrc .txt base1 idxs imgs = .error .scalarIdx) := by
-  refine ⟨rfl, ?_, rfl, ?_, ?_⟩
+    ∧ (idxs ≠ [] → removeTiltsSrc .txt base1 idxs imgs = removeTilts base1 idxs imgs)
+    ∧ removeTiltsSrc .txt base1 [] imgs = .ok imgs := by
+  refine ⟨rfl, ?_, rfl, ?_, rfl⟩
   · intro hne
     have : idxs.isEmpty = false := by simpa using hne
     simp [removeTiltsSrc, this]
-  · intro h2
-    have h1 : idxs.length ≠ 1 := by omega
-    have h0 : idxs.isEmpty = false := by cases idxs with | nil => simp at h2 | cons _ _ => rfl
-    simp [removeTiltsSrc, h1, h0]
-  · intro h1
-    simp [removeTiltsSrc, h1]
+  · intro hne
+    have : idxs.isEmpty = false := by simpa using hne
+    simp [removeTiltsSrc, this]
+
+/-- a text index file with a single entry removes exactly that image (1-based by default) -/
+theorem remove_single_entry_file (base1 : Bool) (i : Int) (imgs : List ι) :
+    removeTiltsSrc .txt base1 [i] imgs = removeTilts base1 [i] imgs := rfl
 
 /-- an omitted `numbered_from_1` means 1-based: index `k` removes the `k`-th image counted from 1 -/
 theorem remove_default_is_one_based (idxs : List Int) (imgs : List ι) :
@@ -789,11 +790,9 @@ theorem file_holds_result_for_each_function (d : α) (inXyz outZyx : Bool) (inp 
         | txt =>
           simp only [removeTiltsSrc] at hs
           split at hs
-          · cases hs
-          · split at hs
-            · cases hs; exact fun x hx => hx
-            · obtain ⟨_, _, _, _, _, hsub, _⟩ := remove_spec base1 idxs _ v hs
-              exact fun x hx => hsub.subset hx
+          · cases hs; exact fun x hx => hx
+          · obtain ⟨_, _, _, _, _, hsub, _⟩ := remove_spec base1 idxs _ v hs
+            exact fun x hx => hsub.subset hx
         | csv =>
           simp only [removeTiltsSrc] at hs
           split at hs
@@ -867,7 +866,7 @@ example : ∃ r, sortTilts (fun (a b : Int) => decide (a ≤ b)) [30, -10] ["a",
 example : sortTilts (fun (a b : Int) => decide (a ≤ b)) [3, 1, 2, 0] ["a", "b", "c"] = .error .angleIndex :=
   (sort_length_mismatch _ [3, 1, 2, 0] ["a", "b", "c"]).1 (by decide)
 example : removeTiltsSrc .csv true [1, 3] ["a", "b", "c", "d"] = .ok ["a", "c"] := by decide
-example : removeTiltsSrc .txt true [2] ["a", "b", "c", "d"] = .error .scalarIdx := by decide
+example : removeTiltsSrc .txt true [2] ["a", "b", "c", "d"] = .ok ["a", "c", "d"] := by decide
 example : removeTiltsSrc .txt true [2, 4] ["a", "b", "c", "d"] = .ok ["a", "c"] := by decide
 example : flipArg (.one "x") [[[1, 2], [3, 4]]] = .ok [[[3, 4], [1, 2]]] := by decide
 example : flipArg .other [[[1, 2], [3, 4]]] = .error .axis := by decide
